@@ -210,6 +210,11 @@ func (p *parser) afterBracket() Frag {
 		}
 	case ':':
 		return p.readSlice(0)
+	case '.': // [..] is the bracket form of a descent
+		if p.pos+1 < len(p.buf) && p.buf[p.pos] == '.' && p.buf[p.pos+1] == ']' {
+			p.pos += 2
+			return Descent('.')
+		}
 	case '?':
 		return p.readFilter()
 	case '(':
